@@ -1,0 +1,33 @@
+//go:build verif
+
+package sqlite
+
+import (
+	"context"
+	"database/sql"
+
+	"github.com/high-moctane/mocrelay"
+)
+
+// Hooks for the verification harness in /verif (build tag "verif").
+// Add-only: thin wrappers around unexported identifiers; no behaviour.
+
+func VerifInsertEvents(ctx context.Context, db *sql.DB, seed uint32, events []*mocrelay.Event) error {
+	return insertEvents(ctx, db, seed, events)
+}
+
+func VerifQueryEvent(ctx context.Context, db *sql.DB, seed uint32, fs []*mocrelay.ReqFilter, maxLimit uint) ([]*mocrelay.Event, error) {
+	return queryEvent(ctx, db, seed, fs, maxLimit)
+}
+
+func VerifSetOrLoadXXHashSeed(ctx context.Context, db *sql.DB) (uint32, error) {
+	return setOrLoadXXHashSeed(ctx, db)
+}
+
+func VerifBuildEventQuery(fs []*mocrelay.ReqFilter, seed uint32, maxLimit uint) (string, []any, error) {
+	return buildEventQuery(fs, seed, maxLimit)
+}
+
+func VerifGetEventKey(seed uint32, event *mocrelay.Event) (int64, bool) {
+	return getEventKey(seed, event)
+}
